@@ -2,6 +2,7 @@ package verifharness
 
 import (
 	"fmt"
+	"net"
 
 	"github.com/Jigsaw-Code/outline-ss-server/verifrt/simrt"
 )
@@ -56,7 +57,7 @@ func checkRelation(rc *RunCtx, ms *mainSim, cfg *mCfg, U []*Key, sigPrefix, when
 
 func runC09(rc *RunCtx) {
 	G := rc.G
-	U := genKeys(G, 2+G.Draw(6), "")
+	U := withRotations(G, genKeys(G, 2+G.Draw(6), ""))
 	var cfg *mCfg
 	for tries := 0; ; tries++ {
 		cfg = genCfg(G, U, nil, 4)
@@ -64,8 +65,50 @@ func runC09(rc *RunCtx) {
 			break
 		}
 	}
+	// Two owners that spell one wildcard socket differently: the socket cannot be
+	// bound twice, so the configuration is refused; a server that loads it anyway
+	// must serve, on that socket, every key of every service that owns it.
+	respelled := false
+	if G.Draw(4) == 0 {
+	find:
+		for _, sv := range cfg.Services {
+			for _, ln := range sv.Listeners {
+				host, port, _ := net.SplitHostPort(ln.Addr)
+				other := ""
+				switch host {
+				case "0.0.0.0":
+					other = "[::]:" + port
+				case "::":
+					other = "0.0.0.0:" + port
+				}
+				if other != "" {
+					nsv := mSvc{Listeners: []mLn{{ln.Type, other}}}
+					for k := 1 + G.Draw(2); k > 0; k-- {
+						nsv.Keys = append(nsv.Keys, U[G.Draw(len(U))])
+					}
+					cfg.Services = append(cfg.Services, nsv)
+					cfg.mergeWild = true
+					respelled = true
+					break find
+				}
+			}
+		}
+	}
 	rc.D("config: %s", describeCfg(cfg))
 	ms, err := newMainSim(rc, []int{0, 100}[G.Draw(2)], cfg)
+	if err != nil && respelled {
+		rc.Probe("respelled_wildcard_socket_refused")
+		rc.Nontrivial = true
+		if ms != nil && ms.Srv != nil {
+			ms.Srv.StopForVerif()
+		}
+		simrt.Quiesce()
+		rc.Phase = "done"
+		return
+	}
+	if respelled {
+		rc.Probe("respelled_wildcard_socket_loaded")
+	}
 	if err != nil {
 		rc.Failf("valid-config-rejected", "a valid configuration failed to load: %v\n%s", err, cfg.YAML())
 		return
